@@ -27,13 +27,19 @@ harness before and after; nothing of pkgcore is used to decide):
    non-directory, a missing parent that is a non-directory); then, and for any other exception, only the
    frame condition is checked.
 
+Root causes that fan out into many symptoms are filed per case under one tag decided from the input alone
+(`root_cause`): `stale-tmp-sibling:*` (a replaced entry has a pre-existing `<entry>#new`), `tempname-clash:*` (the
+contents hold `X#new` next to a replaced `X`).
+
+Scratch lives on tmpfs (/dev/shm) when available, else under ctx.scratch: an ext4 rmdir costs milliseconds here.
+
 Dropped from DESIGN: device nodes (need no extra code path beyond mknod), sockets (`cp -Rp` fallback is
-unreachable for scanned trees: gen_obj maps everything else to fsDev).
+unreachable for scanned trees: gen_obj maps everything else to fsDev), two contents entries aliasing one node through
+a symlinked directory (the generator's symlinked directories point to fresh `<name>.real` directories; aliased
+entries would only get the frame check).
 """
 import errno
 import os
-
-from hypothesis import strategies as st
 
 from .. import core, fsx
 from ..gen import fstrees as T
@@ -366,7 +372,7 @@ def check_after(w, S0, S1, pre, refuse, outcome, viol, want_entries=True):
         for p, rec in ents:
             E = w.node(p)
             sib = E + "#new"
-            if sib in S1 and sib not in S0 and sib not in {w.node(q) for q, _ in ents}:
+            if sib in S1 and sib not in S0 and allowed.get(sib) not in ("entry", "created-parent"):
                 viol(f"tmp-sibling-left-behind:{tag_of[p]}" + (":aliased" if p in aliased else ""),
                      f"{sib!r} exists after a merge that returned")
 
@@ -525,6 +531,6 @@ def shrink_case(ctx, bucket, case):
             sub.cleanup()
 
     try:
-        return core.hyp_shrink(T.merge_case(max_entries=5, big=False), pred, seed=ctx.seed, max_examples=1500)
+        return core.hyp_shrink(T.merge_case(max_entries=5, big=False), pred, seed=ctx.seed, max_examples=400)
     finally:
         scratch_done()
